@@ -60,6 +60,8 @@ type c17Op struct {
 	Path        string    `json:"path,omitempty"`
 	Patch       string    `json:"patch,omitempty"`
 	Target      [7]string `json:"target,omitempty"` // group version kind name namespace annsel labelsel
+	NewNS       string    `json:"newns,omitempty"`  // set configmap|secret --new-namespace
+	Ord         []string  `json:"ord,omitempty"`    // set configmap|secret: literal key order the implementation produced (map iteration)
 }
 
 type c17Case struct {
@@ -124,6 +126,16 @@ func (o c17Op) cli() []string {
 	case "remove configmap", "remove secret":
 		if o.Namespace != "" {
 			a = append(a, "--namespace="+o.Namespace)
+		}
+	case "set configmap", "set secret":
+		for _, l := range o.Literals {
+			a = append(a, "--from-literal="+l)
+		}
+		if o.Namespace != "" {
+			a = append(a, "--namespace="+o.Namespace)
+		}
+		if o.NewNS != "" {
+			a = append(a, "--new-namespace="+o.NewNS)
 		}
 	case "add patch", "remove patch":
 		if o.Path != "" {
@@ -213,6 +225,10 @@ func (o c17Op) term() string {
 		return fmt.Sprintf("(SetNamePrefix %s)", pos)
 	case "set namesuffix":
 		return fmt.Sprintf("(SetNameSuffix %s)", pos)
+	case "set configmap":
+		return fmt.Sprintf("(SetConfigMap %s %s %s %s %s)", pos, coqStrList(o.Literals), coqStr(o.Namespace), coqStr(o.NewNS), coqStrList(o.Ord))
+	case "set secret":
+		return fmt.Sprintf("(SetSecret %s %s %s %s %s)", pos, coqStrList(o.Literals), coqStr(o.Namespace), coqStr(o.NewNS), coqStrList(o.Ord))
 	}
 	panic("unknown op kind " + o.Kind)
 }
@@ -239,9 +255,9 @@ func (o c17Op) addressed() []string {
 		return []string{"CommonAnnotations"}
 	case "add buildmetadata", "remove buildmetadata", "set buildmetadata":
 		return []string{"BuildMetadata"}
-	case "add configmap", "remove configmap":
+	case "add configmap", "remove configmap", "set configmap":
 		return []string{"ConfigMapGenerator"}
-	case "add secret", "remove secret":
+	case "add secret", "remove secret", "set secret":
 		return []string{"SecretGenerator"}
 	case "add patch", "remove patch":
 		return []string{"Patches"}
@@ -752,7 +768,11 @@ func c17FixedOf(b []byte) (*types.Kustomization, error) {
 
 // c17AbsorbedShape: the new JSON differs from the old only in string leaves that grew by appended
 // comment-looking lines (an indented comment re-emitted after a block scalar).
+// c17LastAbsorbed: the lines the last successful c17AbsorbedShape call found appended
+var c17LastAbsorbed []string
+
 func c17AbsorbedShape(oldJ, newJ string) bool {
+	c17LastAbsorbed = nil
 	var a, b interface{}
 	if json.Unmarshal([]byte(oldJ), &a) != nil || json.Unmarshal([]byte(newJ), &b) != nil {
 		return false
@@ -777,6 +797,7 @@ func c17AbsorbedShape(oldJ, newJ string) bool {
 				if !c17IsCommentLike(l) {
 					return false
 				}
+				c17LastAbsorbed = append(c17LastAbsorbed, l)
 			}
 			grew = true
 			return true
@@ -810,7 +831,50 @@ func c17AbsorbedShape(oldJ, newJ string) bool {
 	return cmp(a, b) && grew
 }
 
-func c17IsSetKind(k string) bool { return strings.HasPrefix(k, "set ") }
+// set configmap|secret rebuild the literal list by ranging over a Go map: the order of the list is not
+// determined, so "the same command again gives the same list" is not a law for them
+// c17AbsorbClass names the two mechanisms behind "a string value grew by comment-looking lines":
+//   comment-line-absorbed-into-block-scalar: every appended line already was a (comment-looking) line
+//     INSIDE some string value of the file — the scanner took scalar content for a comment and wrote it
+//     back once more (repaired by /tmp/fixes/U-kustfile-block-scalar-comments.patch);
+//   indented-comment-relocated-behind-block-scalar: a genuine, indented comment of the file was written
+//     back directly behind a field whose text ends in a block scalar.
+func c17AbsorbClass(before *types.Kustomization) string {
+	inside := map[string]bool{}
+	var walk func(x interface{})
+	walk = func(x interface{}) {
+		switch v := x.(type) {
+		case string:
+			for _, l := range strings.Split(v, "\n") {
+				if c17IsCommentLike(l) {
+					inside[strings.TrimLeft(l, " ")] = true
+				}
+			}
+		case map[string]interface{}:
+			for _, y := range v {
+				walk(y)
+			}
+		case []interface{}:
+			for _, y := range v {
+				walk(y)
+			}
+		}
+	}
+	var j interface{}
+	if json.Unmarshal([]byte(c17WholeJSON(before)), &j) == nil {
+		walk(j)
+	}
+	for _, l := range c17LastAbsorbed {
+		if !inside[strings.TrimLeft(l, " ")] {
+			return "indented-comment-relocated-behind-block-scalar"
+		}
+	}
+	return "comment-line-absorbed-into-block-scalar"
+}
+
+func c17IsSetKind(k string) bool {
+	return strings.HasPrefix(k, "set ") && k != "set configmap" && k != "set secret"
+}
 
 // c17InverseOf: the matching remove command of an add command, and whether the theorem's guard holds
 // on the state before the add (k = Fix'd content before).
@@ -965,9 +1029,41 @@ func c17Laws(r *Run, c *c17Case, obs []c17StepObs) {
 			if jo != jn {
 				cls := "frame:" + o.Kind + ":" + f.goName
 				if c17AbsorbedShape(jo, jn) {
-					cls = "comment-line-absorbed-into-block-scalar"
+					cls = c17AbsorbClass(kPrev)
 				}
 				viol("frame", cls, fmt.Sprintf("step %d %v changed field %s: %s -> %s", i, o.cli(), f.goName, jo, jn))
+			}
+		}
+		// `add label --without-selector [--include-templates]` writes into the FIRST labels entry with
+		// includeSelectors: false and the same includeTemplates, or appends such an entry: every other
+		// entry of `labels` is one the command does not address and must come through unchanged
+		if o.Kind == "add label" && o.WoSel {
+			first := -1
+			for j, l := range kPrev.Labels {
+				if !l.IncludeSelectors && l.IncludeTemplates == o.Tpl {
+					first = j
+					break
+				}
+			}
+			bad := ""
+			if len(kNew.Labels) < len(kPrev.Labels) || len(kNew.Labels) > len(kPrev.Labels)+1 {
+				bad = fmt.Sprintf("%d entries became %d", len(kPrev.Labels), len(kNew.Labels))
+			}
+			for j := range kPrev.Labels {
+				if bad != "" || j == first {
+					continue
+				}
+				if a, b := c17JsonTok(kPrev.Labels[j]), c17JsonTok(kNew.Labels[j]); a != b {
+					bad = fmt.Sprintf("entry %d, which the command does not address: %s -> %s", j, a, b)
+				}
+			}
+			if bad == "" && len(kNew.Labels) == len(kPrev.Labels)+1 {
+				if n := kNew.Labels[len(kNew.Labels)-1]; n.IncludeSelectors || n.IncludeTemplates != o.Tpl || first >= 0 {
+					bad = "appended entry " + c17JsonTok(n) + fmt.Sprintf(" (a matching entry exists at %d)", first)
+				}
+			}
+			if bad != "" {
+				viol("frame", "frame-labels-entry:add label", fmt.Sprintf("step %d %v: %s", i, o.cli(), bad))
 			}
 		}
 		// an add of path-like items never introduces a duplicate entry (the lists behave like sets:
@@ -1014,7 +1110,7 @@ func c17Laws(r *Run, c *c17Case, obs []c17StepObs) {
 			} else if c17WholeJSON(k2) != c17WholeJSON(kNew) {
 				cls := "set-not-idempotent:" + o.Kind
 				if c17AbsorbedShape(c17WholeJSON(kNew), c17WholeJSON(k2)) {
-					cls = "comment-line-absorbed-into-block-scalar"
+					cls = c17AbsorbClass(kNew)
 				}
 				viol("set_idempotent", cls, fmt.Sprintf("step %d %v: %s then %s", i, o.cli(), c17WholeJSON(kNew), c17WholeJSON(k2)))
 			}
@@ -1032,14 +1128,14 @@ func c17Laws(r *Run, c *c17Case, obs []c17StepObs) {
 				} else if c17WholeJSON(k2) != c17WholeJSON(kPrev) {
 					cls := "add-remove-not-inverse:" + o.Kind
 					if c17AbsorbedShape(c17WholeJSON(kPrev), c17WholeJSON(k2)) {
-						cls = "comment-line-absorbed-into-block-scalar"
+						cls = c17AbsorbClass(kPrev)
 					}
 					// the patch text just added has itself grown by re-emitted comment lines, so the
 					// matching `remove patch` no longer finds it
 					if o.Kind == "add patch" && len(kNew.Patches) > 0 {
 						last := kNew.Patches[len(kNew.Patches)-1].Patch
 						if last != o.Patch && c17AbsorbedShape(c17JsonTok(o.Patch), c17JsonTok(last)) {
-							cls = "comment-line-absorbed-into-block-scalar"
+							cls = c17AbsorbClass(kPrev)
 						}
 					}
 					viol("add_remove_inverse", cls, fmt.Sprintf("step %d %v then %v: before %s after %s", i, o.cli(), inv.cli(), c17WholeJSON(kPrev), c17WholeJSON(k2)))
@@ -1527,10 +1623,62 @@ func genCase17(g *Rng, maxOps int) (*c17Case, []c17StepObs) {
 		o := genOp17(g, kc, present, c.Flavour == "B")
 		c.Ops = append(c.Ops, o)
 		cls, msg := c17Exec(fs, o.cli())
+		prevBytes := cur
 		cur = fs.read(c.KPath)
 		obs = append(obs, c17StepObs{cls, msg, cur})
+		if (o.Kind == "set configmap" || o.Kind == "set secret") && cls == ClsOk {
+			c.Ops[len(c.Ops)-1].Ord = c17LiteralOrder(o, prevBytes, cur)
+		}
 	}
 	return c, obs
+}
+
+// c17LiteralOrder: the literal keys, in file order, of the entry `set configmap|secret` addressed
+// (the iteration-order oracle of the model): the entry keeps its index.
+func c17LiteralOrder(o c17Op, prev, after []byte) []string {
+	kp, err1 := c17FixedOf(prev)
+	ka, err2 := c17FixedOf(after)
+	if err1 != nil || err2 != nil || len(o.Pos) != 1 {
+		return nil
+	}
+	nsEq := func(a, b string) bool {
+		if a == "" {
+			a = "default"
+		}
+		if b == "" {
+			b = "default"
+		}
+		return a == b
+	}
+	var before, now []types.GeneratorArgs
+	if o.Kind == "set configmap" {
+		for _, x := range kp.ConfigMapGenerator {
+			before = append(before, x.GeneratorArgs)
+		}
+		for _, x := range ka.ConfigMapGenerator {
+			now = append(now, x.GeneratorArgs)
+		}
+	} else {
+		for _, x := range kp.SecretGenerator {
+			before = append(before, x.GeneratorArgs)
+		}
+		for _, x := range ka.SecretGenerator {
+			now = append(now, x.GeneratorArgs)
+		}
+	}
+	for i, x := range before {
+		if x.Name == o.Pos[0] && nsEq(o.Namespace, x.Namespace) {
+			if i >= len(now) {
+				return nil
+			}
+			var ord []string
+			for _, l := range now[i].LiteralSources {
+				ord = append(ord, strings.SplitN(l, "=", 2)[0])
+			}
+			return ord
+		}
+	}
+	return nil
 }
 
 func c17ExistingOr(g *Rng, existing []string, pool []string) string {
@@ -1571,7 +1719,7 @@ func genOp17(g *Rng, k *types.Kustomization, present []string, adversarial bool)
 		{"add buildmetadata", 4}, {"remove buildmetadata", 3}, {"set buildmetadata", 3},
 		{"add configmap", 8}, {"remove configmap", 4}, {"add secret", 5}, {"remove secret", 3},
 		{"add patch", 6}, {"remove patch", 4},
-		{"set image", 8}, {"set replicas", 5}, {"set namespace", 5}, {"set nameprefix", 3}, {"set namesuffix", 3},
+		{"set image", 8}, {"set replicas", 5}, {"set configmap", 6}, {"set secret", 5}, {"set namespace", 5}, {"set nameprefix", 3}, {"set namesuffix", 3},
 	}
 	tot := 0
 	for _, x := range kinds {
@@ -1592,6 +1740,20 @@ func genOp17(g *Rng, k *types.Kustomization, present []string, adversarial bool)
 	if k.GeneratorOptions != nil && g.Chance(45) {
 		kind = g.Pick([]string{"add secret", "add configmap", "add secret"})
 		aimGen = true
+	}
+	// `add label --without-selector` must pick its labels entry by BOTH includeSelectors and includeTemplates:
+	// aim at files that already have labels entries (with selectors, with templates)
+	aimLabels := false
+	if len(k.Labels) > 0 && !aimGen && g.Chance(25) {
+		kind = "add label"
+		aimLabels = true
+	}
+	// `set configmap|secret` can only succeed on an existing entry: create one first when there is none
+	if kind == "set configmap" && len(k.ConfigMapGenerator) == 0 {
+		kind = "add configmap"
+	}
+	if kind == "set secret" && len(k.SecretGenerator) == 0 {
+		kind = "add secret"
 	}
 	o := c17Op{Kind: kind}
 	pathArg := func(existing []string) string {
@@ -1650,6 +1812,11 @@ func genOp17(g *Rng, k *types.Kustomization, present []string, adversarial bool)
 		o.WoSel = g.Chance(35)
 		o.Tpl = g.Chance(15)
 		o.Force = g.Chance(30)
+		if aimLabels {
+			o.WoSel = true
+			o.Tpl = k.Labels[g.Intn(len(k.Labels))].IncludeTemplates
+			o.Force = g.Chance(50)
+		}
 		m := k.CommonLabels
 		if o.WoSel {
 			m = nil
@@ -1774,6 +1941,58 @@ func genOp17(g *Rng, k *types.Kustomization, present []string, adversarial bool)
 			o.SType = g.Pick([]string{"Opaque", "kubernetes.io/tls"})
 		}
 		if g.Chance(3) {
+			o.Pos = append(o.Pos, "second")
+		}
+	case "set configmap", "set secret":
+		var entries []types.GeneratorArgs
+		if kind == "set configmap" {
+			for _, x := range k.ConfigMapGenerator {
+				entries = append(entries, x.GeneratorArgs)
+			}
+		} else {
+			for _, x := range k.SecretGenerator {
+				entries = append(entries, x.GeneratorArgs)
+			}
+		}
+		var names, keys []string
+		for _, x := range entries {
+			names = append(names, x.Name)
+		}
+		o.Pos = []string{c17ExistingOr(g, names, c17GenNames)}
+		if len(names) > 0 && g.Chance(75) {
+			o.Pos = []string{g.Pick(names)}
+		}
+		for _, x := range entries {
+			if x.Name == o.Pos[0] {
+				for _, l := range x.LiteralSources {
+					keys = append(keys, strings.SplitN(l, "=", 2)[0])
+				}
+				if g.Chance(70) {
+					o.Namespace = x.Namespace
+				}
+				break
+			}
+		}
+		switch n := g.Intn(100); {
+		case n < 65 && len(keys) > 0:
+			// mostly valid: new values for one or two existing keys
+			for _, key := range c17PickDistinct(g, keys, 1, 2) {
+				o.Literals = append(o.Literals, key+"="+g.Pick([]string{"new", "2", "3", "x y"}))
+			}
+		case n < 90:
+			cnt := 1 + g.Intn(2)
+			for i := 0; i < cnt; i++ {
+				key := c17ExistingOr(g, keys, []string{"x", "nokey"})
+				o.Literals = append(o.Literals, key+g.Pick([]string{"=new", "=2", "=a=b", "", "="}))
+			}
+		}
+		if g.Chance(30) {
+			o.NewNS = g.Pick(c17Namespaces[1:])
+		}
+		if g.Chance(10) && o.Namespace == "" {
+			o.Namespace = g.Pick(c17Namespaces[1:])
+		}
+		if g.Chance(2) {
 			o.Pos = append(o.Pos, "second")
 		}
 	case "remove configmap", "remove secret":
